@@ -439,16 +439,36 @@ Definition check_read (s : st) (mp : option (list skey)) (i : idx) (asc : bool) 
       else 12%N                                                        (* wrong set / window / paging *)
   end.
 
+(* The beacons are a function; every maintenance step wraps the previous one and reads it
+   twice, so a long history would be re-evaluated exponentially often. The checker therefore
+   tabulates the ten beacons after every step (extensionally the identity). *)
+Definition freeze (s : st) : st :=
+  let k1 := bcn s FKey true in let k0 := bcn s FKey false in
+  let c1 := bcn s FCreated true in let c0 := bcn s FCreated false in
+  let u1 := bcn s FUpdated true in let u0 := bcn s FUpdated false in
+  let e1 := bcn s FExpiry true in let e0 := bcn s FExpiry false in
+  let v1 := bcn s FValue true in let v0 := bcn s FValue false in
+  mkst (recs s)
+       (fun f a => match f, a with
+                   | FKey, true => k1 | FKey, false => k0
+                   | FCreated, true => c1 | FCreated, false => c0
+                   | FUpdated, true => u1 | FUpdated, false => u0
+                   | FExpiry, true => e1 | FExpiry, false => e0
+                   | FValue, true => v1 | FValue, false => v0
+                   end)
+       (vtype s).
+
 Fixpoint check_from (s : st) (c : case) : N :=
   match c with
   | [] => 0%N
   | (o, ob) :: t =>
       match o with
       | ORead i asc from lim ft tu =>
-          let '(s', mp) := do_read false s i asc from lim ft tu in
+          let '(s0, mp) := do_read false s i asc from lim ft tu in
+          let s' := freeze s0 in
           let code := check_read s' mp i asc from lim ft tu ob in
           if N.eqb code 0 then check_from s' t else code
-      | _ => check_from (fst (step false s o)) t
+      | _ => check_from (freeze (fst (step false s o))) t
       end
   end.
 
